@@ -379,6 +379,8 @@ impl Tree {
                 Expect::Ok(Val::Unit)
             }
             Step::Len => Expect::Ok(Val::Count(self.file(h.ino).len() as u64)),
+            // the handle keeps referring to its inode
+            Step::Rename { a, b } => self.rename(a, b),
         }
     }
 
